@@ -5,6 +5,7 @@
   the transition system of C07; callback emission is a function of the step label (`emit`).
 -/
 import CubedModel.Proofs.Sched
+import CubedModel.Model.GeneratedC13
 
 namespace Cubed.C13
 
@@ -132,6 +133,22 @@ theorem C13_accepts_sound (d : Dag) (sched : List (List Nat)) (tr : List Event)
     ∃ ls s, Run d anyPolicy (init sched) ls s ∧ s.complete ∧ events ls = tr ∧ Lang d sched tr := by
   obtain ⟨ls, s, hr, hc, he⟩ := accepts_sound h
   exact ⟨ls, s, hr, hc, he, he ▸ events_in_lang hr hc⟩
+
+/-- (h) **Tie to the source** (facts regenerated by `harness/extract_c13.py` on every run): blockwise ops
+count the same chunk grid they enumerate (`math.prod(len(c) for c in X)` next to `ChunkKeys(X)`), only when the
+caller gave no count, and pass both on; fused ops keep the successor's iterable and count; a region store
+advertises `source.npartitions` for `OutputBlocksIterable` (see (b'')); create-arrays counts its own list;
+the plan total accumulates the advertised counts; compute-start / -end bracket the executor's run. -/
+theorem C13_code_shape :
+    GeneratedC13.blockwiseCountSource = GeneratedC13.blockwiseMappableSource ∧
+    GeneratedC13.blockwiseCountOnlyIfNone = true ∧
+    GeneratedC13.blockwisePassesCount = true ∧ GeneratedC13.blockwisePassesMappable = true ∧
+    GeneratedC13.fuseKeepsSuccessorTasks = true ∧ GeneratedC13.fuseMultipleKeepsSuccessorTasks = true ∧
+    GeneratedC13.regionCountSource = "source.npartitions" ∧
+    GeneratedC13.regionBlocksSource = "OutputBlocksIterable(region, shape, chunks)" ∧
+    GeneratedC13.createCountIsLenOfMappable = true ∧
+    GeneratedC13.planTotalAccumulates = true ∧
+    GeneratedC13.executeBracket = "start,run,end" := by decide
 
 /-! ## Non-vacuity -/
 
